@@ -326,7 +326,10 @@ func (x *Exec) verifAPI(name string, fn *ssa.Function, args []Value) (Value, boo
 			x.notEncoded("verif.%s needs a concrete length; use %sN", name, name)
 		}
 		return x.symBytes(nm, n, int(n.Val), name == "String"), true
-	case "BytesN", "StringN":
+	case "BytesN", "StringN", "StringNGuard":
+		if name == "StringNGuard" {
+			name = "StringN"
+		}
 		// BytesN(name, n, max): symbolic length n <= max, backing object of max bytes
 		nm := x.strArg(args[0])
 		n := args[1].(*smt.Term)
@@ -388,6 +391,11 @@ func (x *Exec) verifAPI(name string, fn *ssa.Function, args []Value) (Value, boo
 			}
 		}
 		return x.c64(0), true
+	case "Freeze":
+		// Freeze(mode int): 0 off, 1 writes to existing objects only under a write lock, 2 never
+		x.frozen = int(args[0].(*smt.Term).Val)
+		x.frozenMark = x.nextObj
+		return nil, true
 	case "WriteJunk":
 		// WriteJunk(p unsafe.Pointer, n int): overwrite n bytes at p with unconstrained values
 		// (bounds-checked against p's object); no forking for symbolic n.
@@ -659,7 +667,12 @@ func init() {
 		}
 		puts, _ := p.Obj.Ghost["pool"].([]Value)
 		for i := len(puts) - 1; i >= 0; i-- {
-			reuse := x.st.Var(x.uniqueName(fmt.Sprintf("pool!reuse")), 0)
+			// ownership harnesses ask for every choice (fresh or any pooled object); otherwise the
+			// most recently Put object is handed out, as the runtime's per-P cache usually does
+			reuse := x.st.True
+			if x.h.PoolNondet {
+				reuse = x.st.Var(x.uniqueName(fmt.Sprintf("pool!reuse")), 0)
+			}
 			if x.Branch(reuse) {
 				v := puts[i]
 				np := append([]Value{}, puts[:i]...)
@@ -833,6 +846,17 @@ func (x *Exec) lockOp(v Value, kind string) {
 	}
 	if x.h.recordEvents {
 		x.events = append(x.events, Event{Tid: x.tid, Kind: kind, Obj: p.Obj.ID, ObjNm: p.Obj.Name, Off: off, Pos: x.posStr()})
+	}
+	if x.wlocks == nil {
+		x.wlocks = map[*Object]int{}
+	}
+	switch kind {
+	case "LK":
+		x.wlocks[p.Obj]++
+	case "UL":
+		if x.wlocks[p.Obj] > 0 {
+			x.wlocks[p.Obj]--
+		}
 	}
 	switch kind {
 	case "LK", "RLK":
